@@ -1,8 +1,9 @@
-import Sudachi.Proofs.Oov
+import Sudachi.Proofs.OovLattice
 /-!
 # C13 — Unknown-word candidates follow the character-class definition
 
-Model: `Sudachi/Model/Oov.lean` (+ the definition-file readers in `Model/OovIO.lean`).  Character
+Model: `Sudachi/Model/Oov.lean` (+ the definition-file readers in `Model/OovIO.lean`); lemmas in `Proofs/Oov.lean`,
+`Proofs/OovLattice.lean`.  Character
 classes are the C17 model.  Quantifiers: every list of per-character class sets (`cats`), every
 provider configuration, every offset / created mask.
 -/
@@ -244,15 +245,6 @@ theorem every_position_has_candidate (ps : List Provider) (lex : List Word) (buf
   ⟨fun nodes h => stepAt_nonempty ps lex buf offset nodes h,
    fun cfg hl k => stepAt_no_disconnect ps cfg lex buf offset hl k⟩
 
-/-- Full statement wanted: `buildLattice` never returns `EosBosDisconnect` when a fallback is configured.
-Proved: the position loop never does.  Missing: that the node ending furthest reaches the end of the text,
-so that `connect_eos` finds a predecessor (needs `e ≤ n` for every provider's nodes, i.e. bounds on the run
-table; covered by the oracle `disconnect-with-fallback` on the implementation). -/
-theorem lattice_never_disconnects_partial (ps : List Provider) (cfg : SimpleCfg) (lex : List Word) (buf : Buf)
-    (hlast : ps.getLast? = some (.simple cfg)) (k : String) :
-    buildFrom ps lex buf (List.range buf.chars.length) [] ≠ .err k :=
-  buildFrom_no_disconnect ps cfg lex buf hlast _ [] k
-
 /-- non-vacuity: MeCab first, Simple last, on the D11 witness; and without a fallback the loop can fail. -/
 example : ([Provider.mecab ⟨[], []⟩, Provider.simple ⟨0, 0, 0, 3⟩]).getLast? = some (.simple ⟨0, 0, 0, 3⟩) ∧
     stepAt [Provider.mecab ⟨[], []⟩, Provider.simple ⟨0, 0, 0, 3⟩] [] ⟨[128077, 127995, 28450], [1, 2147483647, 4], [1, 2, 1], [true, false, true]⟩ 1
@@ -308,5 +300,307 @@ theorem provider_nodes_are_oov (cfg : SimpleCfg) (rcfg : RegexCfg) (buf : Buf) (
 example : oovInfo [65, 98, 12354] 0 2 (wordIdOov 5) =
     { isOov := true, dictionaryId := -1, posId := 5, surface := [65, 98], normalizedForm := [65, 98],
       dictionaryForm := [65, 98], readingForm := [65, 98] } := by decide
+
+end C13
+
+namespace C13
+open Oov
+
+/-! ## clause "every reachable position has a candidate" — the lattice as a whole -/
+
+/-- Every buffer the model builds — whichever run computation (backward, forward, declarative) and word-start
+variant — is well formed: one class set, run length and word-start flag per character, every run length at
+least 1 and inside the text.  This discharges the hypothesis `buf.WF` of the theorems below for every case the
+driver answers. -/
+theorem built_buffer_well_formed (v : Variant) (bowFix : Bool) (tab : List (Nat × Nat)) (chars : List Nat) (buf : Buf)
+    (h : mkBufV v bowFix tab chars = some buf) : buf.WF :=
+  mkBufV_wf v bowFix tab chars buf h
+
+/-- **Full statement** (was `lattice_never_disconnects_partial`): with the fallback (Simple) provider configured
+last, `build_lattice` never returns `EosBosDisconnect` (nor any other `Err`) — neither from the position loop
+nor from `connect_eos` —, whatever the other providers, the dictionary and the classes are. -/
+theorem lattice_never_disconnects (ps : List Provider) (cfg : SimpleCfg) (lex : List Word) (buf : Buf) (hwf : buf.WF)
+    (hlast : ps.getLast? = some (.simple cfg)) (k : String) : buildLattice ps lex buf ≠ .err k := by
+  unfold buildLattice
+  intro h
+  cases hb : buildFrom ps lex buf (List.range buf.chars.length) [] with
+  | err k' => exact buildFrom_no_disconnect ps cfg lex buf hlast _ [] k' hb
+  | panic w => simp [hb] at h
+  | ok nodes =>
+    simp only [hb] at h
+    rw [List.range_eq_range'] at hb
+    obtain ⟨_, _, q, hq1, hq2, hq3⟩ :=
+      buildFrom_inv ps lex buf hwf buf.chars.length 0 [] nodes (by omega) (latInv_init _) hb
+    have : q = buf.chars.length := by omega
+    subst this
+    simp [hq3] at h
+
+/-- the loop alone, for ANY buffer (well formed or not): no `Err` with the fallback last -/
+theorem position_loop_never_disconnects (ps : List Provider) (cfg : SimpleCfg) (lex : List Word) (buf : Buf)
+    (hlast : ps.getLast? = some (.simple cfg)) (k : String) :
+    buildFrom ps lex buf (List.range buf.chars.length) [] ≠ .err k :=
+  buildFrom_no_disconnect ps cfg lex buf hlast _ [] k
+
+/-- **Full statement over the finished lattice**, for every provider list (fallback or not): whenever
+`build_lattice` succeeds, (1) every node is non-empty, ends inside the text and begins at a position with a
+previous node (`has_previous_node`: position 0 or the end of a node), (2) every position before the end of the
+text that has a previous node has at least one candidate, (3) the end of the text has a previous node. -/
+theorem every_reachable_position_has_candidate (ps : List Provider) (lex : List Word) (buf : Buf) (hwf : buf.WF)
+    (nodes : List Node) (h : buildLattice ps lex buf = .ok nodes) :
+    (∀ x ∈ nodes, x.b < x.e ∧ x.e ≤ buf.chars.length ∧ reachable nodes x.b = true) ∧
+    (∀ p, p < buf.chars.length → reachable nodes p = true → ∃ x ∈ nodes, x.b = p) ∧
+    reachable nodes buf.chars.length = true := by
+  unfold buildLattice at h
+  cases hb : buildFrom ps lex buf (List.range buf.chars.length) [] with
+  | err k' => simp [hb] at h
+  | panic w => simp [hb] at h
+  | ok nodes' =>
+    simp only [hb] at h
+    split at h
+    · rename_i hr
+      cases h
+      rw [List.range_eq_range'] at hb
+      obtain ⟨h1, h2, _⟩ := buildFrom_inv ps lex buf hwf buf.chars.length 0 [] nodes (by omega) (latInv_init _) hb
+      exact ⟨fun x hx => ⟨(h1 x hx).2.1, (h1 x hx).2.2.1, (h1 x hx).2.2.2⟩, h2, hr⟩
+    · cases h
+
+/-- non-vacuity: the D11 witness buffer is well formed, MeCab + Simple build its lattice -/
+example : (⟨[128077, 127995, 28450], [1, 2147483647, 4], [2, 1, 1], [true, false, true]⟩ : Buf).WF :=
+  ⟨rfl, rfl, rfl, by
+    intro i c h
+    match i, h with
+    | 0, h => cases h; decide
+    | 1, h => cases h; decide
+    | 2, h => cases h; decide
+    | n + 3, h => simp at h⟩
+
+example : buildLattice [Provider.mecab ⟨[], []⟩, Provider.simple ⟨0, 0, 0, 3⟩] []
+    ⟨[128077, 127995, 28450], [1, 2147483647, 4], [2, 1, 1], [true, false, true]⟩
+      = .ok [⟨0, 2, 0, 0, 0, true, 3⟩, ⟨2, 3, 0, 0, 0, true, 3⟩] := by decide
+
+/-! ## clause "providers skipped at no-word-start characters; last provider re-invoked if nothing exists":
+WHICH positions call the providers, in which order, with what -/
+
+/-- The recorded builder (the one whose `provide_oov` calls the driver prints and the harness observes on the real
+`build_lattice` through wrapped providers) is the builder of the theorems: forgetting the calls gives
+`stepAt` / `buildLattice`. -/
+theorem recorded_builder_is_builder (ps : List Provider) (lex : List Word) (buf : Buf) :
+    (∀ o, (stepAtT ps lex buf o).mapO (·.nodes) = stepAt ps lex buf o) ∧
+    (buildLatticeT ps lex buf).mapO Prod.fst = buildLattice ps lex buf :=
+  ⟨stepAtT_nodes ps lex buf, buildLatticeT_nodes ps lex buf⟩
+
+/-- **Full statement**: what a successful step at position `o` inserts.  The decision whether the provider list is
+run is taken on the CLASS of the character at `o` (`asksProviders cat` = `cat ∩ {NOOOVBOW, NOOOVBOW2} = ∅`) — not
+on `can_bow(o)`.
+* class allows: dictionary words, then the outputs of the provider list in order (`provider_stack_order` says with
+  which arguments); no extra call is made and something was produced;
+* class forbids and a dictionary word exists: exactly the dictionary words, no provider is called;
+* class forbids and no dictionary word: exactly what the LAST provider returns for an empty mask and an empty buffer
+  (non-empty, otherwise the step fails) — whichever provider that is. -/
+theorem position_candidates_spec (ps : List Provider) (lex : List Word) (buf : Buf) (o : Nat) (t : PosTrace)
+    (h : stepAtT ps lex buf o = .ok t) :
+    ∃ cat, buf.cats[o]? = some cat ∧ t.asked = asksProviders cat ∧ t.lexN = lexNodes lex buf o ∧ t.nodes ≠ [] ∧
+      (asksProviders cat = true →
+        (∃ st', provideAllT ps 0 buf o (addAll 0 t.lexN, t.lexN) = .ok (st', t.calls)) ∧
+        t.fb = none ∧ t.nodes = t.lexN ++ outsOf t.calls) ∧
+      (asksProviders cat = false → t.lexN ≠ [] → t.calls = [] ∧ t.fb = none ∧ t.nodes = t.lexN) ∧
+      (asksProviders cat = false → t.lexN = [] → t.calls = [] ∧
+        ∃ p c, ps.getLast? = some p ∧ t.fb = some c ∧ c.idx = ps.length - 1 ∧ c.offset = o ∧ c.created = 0 ∧ c.pre = 0 ∧
+          provide p buf o 0 [] = .ok t.nodes ∧ c.out = t.nodes) := by
+  have hnodes : t.nodes ≠ [] := by
+    have := stepAtT_nodes ps lex buf o
+    rw [h] at this
+    exact stepAt_nonempty ps lex buf o t.nodes this.symm
+  obtain ⟨cat, hcat, _, hasked, hlex, hloop, hnot, hne, hnil⟩ := stepAtT_spec ps lex buf o t h
+  refine ⟨cat, hcat, hasked, hlex, hnodes, ?_, ?_, ?_⟩
+  · intro ha
+    have ha' : t.asked = true := by rw [hasked]; exact ha
+    exact ⟨hloop ha', fallback_redundant_when_asked ps lex buf o t h ha'⟩
+  · intro ha hl
+    have ha' : t.asked = false := by rw [hasked]; exact ha
+    have hc := hnot ha'
+    have : t.lexN ++ outsOf t.calls ≠ [] := by rw [hc]; simpa [outsOf] using hl
+    obtain ⟨h1, h2⟩ := hne this
+    exact ⟨hc, h1, by rw [h2, hc]; simp [outsOf]⟩
+  · intro ha hl
+    have ha' : t.asked = false := by rw [hasked]; exact ha
+    have hc := hnot ha'
+    have : t.lexN ++ outsOf t.calls = [] := by rw [hc, hl]; rfl
+    obtain ⟨p, c, h1, h2, h3, h4, h5, h6, h7, _, h9⟩ := hnil this
+    exact ⟨hc, p, c, h1, h2, h3, h4, h5, h6, by rw [h9]; exact h7, h9.symm⟩
+
+/-- **Full statement over the provider list** (order of the providers): when the provider list is run at a position
+with dictionary words `lexN`, every configured provider is called exactly once, in the configured order; the call of
+a provider sees as `other_words` the mask of the lengths of the dictionary words and of everything the EARLIER
+providers pushed, and as `result` exactly those nodes; the final mask/buffer are those of all nodes together. -/
+theorem provider_stack_order (ps : List Provider) (buf : Buf) (o : Nat) (lexN : List Node) (st' : Nat × List Node)
+    (calls : List Call) (h : provideAllT ps 0 buf o (addAll 0 lexN, lexN) = .ok (st', calls)) :
+    calls.map (·.idx) = List.range ps.length ∧
+    st' = (addAll 0 (lexN ++ outsOf calls), lexN ++ outsOf calls) ∧
+    ∀ before c after, calls = before ++ c :: after →
+      c.idx = before.length ∧ c.offset = o ∧
+      c.created = addAll 0 (lexN ++ outsOf before) ∧ c.pre = (lexN ++ outsOf before).length ∧
+      ∃ p, ps[c.idx]? = some p ∧ provide p buf o (addAll 0 (lexN ++ outsOf before)) (lexN ++ outsOf before) = .ok c.out := by
+  obtain ⟨_, hst, hsplit⟩ := provideAllT_spec ps 0 buf o _ st' calls h
+  refine ⟨by rw [provideAllT_idx ps 0 buf o _ st' calls h, List.range_eq_range'], by rw [hst, addAll_append], ?_⟩
+  intro before c after hc
+  obtain ⟨p, hp, hidx, hoff, hcr, hpre, hprov⟩ := hsplit before c after hc
+  simp only [Nat.zero_add] at hidx
+  simp only [← addAll_append] at hcr hprov
+  exact ⟨hidx, hoff, hcr, hpre, p, by rw [hidx]; exact hp, hprov⟩
+
+/-- **Full statement** ("invoked because no candidate exists yet at that position", across providers): for the call `c`
+of a provider in the list, with `prior` = the dictionary words and everything earlier providers pushed,
+* Simple: returns nothing if `prior` is non-empty; if `prior` is empty, exactly one node reaching to the next
+  permissible word start;
+* MeCab: exactly the nodes prescribed for the classes of the character, where a class that is not "always invoked"
+  contributes only if `prior` is empty (`MecabSpec` with `prior.length` in the place of the mask);
+* Regex: never a node that ends where a node of `prior` ends. -/
+theorem invoke_only_when_nothing_created (ps : List Provider) (buf : Buf) (o : Nat) (lexN : List Node) (st' : Nat × List Node)
+    (calls before after : List Call) (c : Call) (h : provideAllT ps 0 buf o (addAll 0 lexN, lexN) = .ok (st', calls))
+    (hc : calls = before ++ c :: after) :
+    (∀ cfg, ps[c.idx]? = some (.simple cfg) →
+      (lexN ++ outsOf before ≠ [] → c.out = []) ∧
+      (lexN ++ outsOf before = [] → o < buf.bow.length →
+        ∃ k, NextStart buf.bow o k ∧ c.out = [⟨o, o + k, cfg.l, cfg.r, cfg.c, true, cfg.pos⟩])) ∧
+    (∀ cfg, ps[c.idx]? = some (.mecab cfg) →
+      ∃ charLen cat, buf.cont[o]? = some charLen ∧ buf.cats[o]? = some cat ∧
+        ∀ x, x ∈ c.out ↔ (charLen ≠ 0 ∧ ∃ ct ∈ flagsIter cat,
+          MecabSpec cfg buf.chars.length o charLen (lexN ++ outsOf before).length ct x)) ∧
+    (∀ cfg, ps[c.idx]? = some (.regex cfg) → (∀ x ∈ lexN ++ outsOf before, x.b = o ∧ x.b < x.e) →
+      ∀ y ∈ c.out, ∀ x ∈ lexN ++ outsOf before, x.e ≠ y.e) := by
+  obtain ⟨_, _, hsplit⟩ := provider_stack_order ps buf o lexN st' calls h
+  obtain ⟨_, _, _, _, p, hp, hprov⟩ := hsplit before c after hc
+  have hz : addAll 0 (lexN ++ outsOf before) = 0 ↔ (lexN ++ outsOf before).length = 0 := by
+    rw [addAll_zero_iff]; exact List.length_eq_zero_iff.symm
+  refine ⟨?_, ?_, ?_⟩
+  · intro cfg hcfg
+    rw [hcfg] at hp; cases hp
+    constructor
+    · intro hne
+      have : addAll 0 (lexN ++ outsOf before) ≠ 0 := fun h0 => hne ((addAll_zero_iff _).mp h0)
+      have h1 : simpleProvide cfg buf o (addAll 0 (lexN ++ outsOf before)) = .ok [] := by simp [simpleProvide, this]
+      simp only [provide] at hprov
+      rw [h1] at hprov; exact (Outcome.ok.inj hprov).symm
+    · intro hnil ho
+      obtain ⟨k, hk, hs⟩ := (simpleProvide_spec cfg buf o 0 ho).2 rfl
+      rw [hnil] at hprov
+      simp only [provide, addAll, List.foldl_nil] at hprov
+      rw [hs] at hprov
+      exact ⟨k, hk, (Outcome.ok.inj hprov).symm⟩
+  · intro cfg hcfg
+    rw [hcfg] at hp; cases hp
+    simp only [provide] at hprov
+    obtain ⟨charLen, cat, h1, h2, h3⟩ := mecabProvide_spec cfg buf o _ c.out hprov
+    refine ⟨charLen, cat, h1, h2, fun x => ?_⟩
+    rw [h3 x]
+    constructor
+    · rintro ⟨a, ct, hct, hs⟩
+      exact ⟨a, ct, hct, (MecabSpec_created_congr cfg _ o charLen _ _ ct x hz).mp hs⟩
+    · rintro ⟨a, ct, hct, hs⟩
+      exact ⟨a, ct, hct, (MecabSpec_created_congr cfg _ o charLen _ _ ct x hz).mpr hs⟩
+  · intro cfg hcfg hb
+    rw [hcfg] at hp; cases hp
+    simp only [provide] at hprov
+    exact regexProvide_no_duplicate cfg buf o _ c.out hb hprov
+
+/-- **The extra call of the last provider matters only where the loop was skipped**: at a position whose character's
+class lets the provider list run, a successful step never contains the extra call (it would repeat a call that has
+just returned nothing, and the step would fail). -/
+theorem fallback_call_only_when_loop_skipped (ps : List Provider) (lex : List Word) (buf : Buf) (o : Nat) (t : PosTrace)
+    (h : stepAtT ps lex buf o = .ok t) (hfb : t.fb ≠ none) : t.asked = false ∧ t.calls = [] ∧ t.lexN = [] := by
+  obtain ⟨cat, _, hasked, _, _, h1, h2, h3⟩ := position_candidates_spec ps lex buf o t h
+  cases ha : asksProviders cat with
+  | true => exact absurd (h1 ha).2.1 hfb
+  | false =>
+    by_cases hl : t.lexN = []
+    · exact ⟨by rw [hasked, ha], (h3 ha hl).1, hl⟩
+    · exact absurd (h2 ha hl).2.1 hfb
+
+
+/-! ## "positions that may not start a word are never reached" — what is true and what is not -/
+
+/-- **True without class-driven providers**: when only dictionary words and the fallback (Simple) provider make
+candidates, every node ends at the end of the text or at a character that may start a word — so a position where
+`can_bow` is false never has a previous node (dictionary words are filtered by `can_bow(e.end)`, the fallback
+reaches to the next permissible word start). -/
+theorem only_word_starts_reached_by_words_and_fallback (ps : List Provider) (lex : List Word) (buf : Buf) (hwf : buf.WF)
+    (hall : ∀ p ∈ ps, ∃ cfg, p = Provider.simple cfg) (nodes : List Node) (h : buildLattice ps lex buf = .ok nodes) :
+    ∀ x ∈ nodes, x.e = buf.chars.length ∨ buf.bow[x.e]? = some true := by
+  unfold buildLattice at h
+  cases hb : buildFrom ps lex buf (List.range buf.chars.length) [] with
+  | err k' => simp [hb] at h
+  | panic w => simp [hb] at h
+  | ok nodes' =>
+    simp only [hb] at h
+    split at h
+    · cases h
+      apply buildFrom_forall (fun x => x.e = buf.chars.length ∨ buf.bow[x.e]? = some true) ps lex buf _ [] nodes ?_ (by intro x hx; cases hx) hb
+      intro p new hs
+      have hp : p < buf.chars.length := by rw [← hwf.cats_len]; exact stepAt_index ps lex buf p new hs
+      apply stepAt_forall (fun x => x.e = buf.chars.length ∨ buf.bow[x.e]? = some true) ps lex buf p new ?_ ?_ hs
+      · intro x hx; exact lexNodes_end_bow lex buf p x hx hwf.bow_len
+      · intro q hq c ex out hprov x hx
+        obtain ⟨cfg, rfl⟩ := hall q hq
+        exact (simpleProvide_ok cfg buf p c out hwf hp hprov x hx).2
+    · cases h
+
+/-- **False as soon as a class-driven provider is configured** — and the provider list IS run at such a position,
+because the builder tests the class of the character, not `can_bow`.  Witness with the behaviour lines of the shipped
+char.def (`ALPHA 1 1 0`, `GREEK 1 1 0`), text `a` U+200D `Ω` (ALPHA, ALL|NOOOVBOW2, GREEK): the grouped ALPHA candidate
+covers `a` + joiner (class ALL keeps ALPHA in common), so position 2 has a previous node although `can_bow` is false
+there (it follows a NOOOVBOW2 character); its class is GREEK, the providers are asked, MeCab answers: an OOV word begins
+right after the joiner.  (Had the builder tested `can_bow`, the loop would have been skipped and the fallback node
+`Ω` inserted instead — the mutation the harness is required to catch.) -/
+theorem providers_asked_where_can_bow_is_false_counterexample :
+    let buf : Buf := ⟨[97, 8205, 937], [32, 3221225471, 512], [2, 1, 1], [true, false, false]⟩
+    let mecab : MecabCfg := ⟨[(32, ⟨32, true, true, 0⟩), (512, ⟨512, true, true, 0⟩)], [(32, [⟨1, 1, 100, 0⟩]), (512, [⟨2, 2, 200, 1⟩])]⟩
+    let ps := [Provider.mecab mecab, Provider.simple ⟨5, 5, 7000, 3⟩]
+    bowTableFix buf.cats = buf.bow ∧ bowTable buf.cats = buf.bow ∧
+    buf.bow[2]? = some false ∧
+    stepAtT ps [] buf 2 = .ok ⟨2, true, [],
+      [⟨0, 2, 0, 0, [⟨2, 3, 2, 2, 200, true, 1⟩]⟩, ⟨1, 2, 1, 1, []⟩], none, [⟨2, 3, 2, 2, 200, true, 1⟩]⟩ ∧
+    buildLattice ps [] buf = .ok [⟨0, 2, 1, 1, 100, true, 0⟩, ⟨2, 3, 2, 2, 200, true, 1⟩] ∧
+    ¬ (∀ x ∈ [(⟨0, 2, 1, 1, 100, true, 0⟩ : Node), ⟨2, 3, 2, 2, 200, true, 1⟩], x.e = 3 ∨ buf.bow[x.e]? = some true) := by
+  decide
+
+/-- the run table of the witness is the one the (forward) run computation gives -/
+example : fillCatContinuityForward [32, 3221225471, 512] = [2, 1, 1] := by
+  simp [fillCatContinuityForward, scan, countdown]
+
+/-- the same for a letter that continues a word (`can_bow` false inside an ALPHA stretch): with one-character ALPHA
+candidates (`ALPHA 1 0 1`) position 1 of `ab` is reached and the providers are asked there; and at a NOOOVBOW2
+character that is reached (`a` U+200D with `ALPHA 1 0 1`) the loop is skipped and the LAST provider is called once with
+an empty mask — here the fallback, which reaches to the end of the text. -/
+theorem letter_continuation_and_joiner_example :
+    let mecab : MecabCfg := ⟨[(32, ⟨32, true, false, 1⟩)], [(32, [⟨1, 1, 100, 0⟩])]⟩
+    let ps := [Provider.mecab mecab, Provider.simple ⟨5, 5, 7000, 3⟩]
+    stepAtT ps [] ⟨[97, 98], [32, 32], [2, 1], [true, false]⟩ 1 =
+      .ok ⟨1, true, [], [⟨0, 1, 0, 0, [⟨1, 2, 1, 1, 100, true, 0⟩]⟩, ⟨1, 1, 1, 1, []⟩], none, [⟨1, 2, 1, 1, 100, true, 0⟩]⟩ ∧
+    stepAtT ps [] ⟨[97, 8205], [32, 3221225471], [2, 1], [true, false]⟩ 1 =
+      .ok ⟨1, false, [], [], some ⟨1, 1, 0, 0, [⟨1, 2, 5, 5, 7000, true, 3⟩]⟩, [⟨1, 2, 5, 5, 7000, true, 3⟩]⟩ := by
+  decide
+
+end C13
+
+namespace C13
+open Oov
+
+/-! ## "for each class of the character": which classes `CategoryType::iter` visits -/
+
+/-- **Full statement for the named single classes** (was trusted): the iteration over the classes of a character
+(`flagsIter`, the transcription of bitflags 2.5 `Flags::iter`, whose elements are the `ct` of `mecab_candidates_spec`)
+visits DEFAULT … USER4 (bits 0–14), NOOOVBOW (bit 30) and NOOOVBOW2 (bit 31) exactly when the character has that
+class — for every class set.  (The composite key `ALL`, visited after the single classes when the character has all
+of them, stays validated by correspondence only.) -/
+theorem class_iteration_visits_named_classes (cat i : Nat) (hi : i < 15 ∨ i = 30 ∨ i = 31) :
+    2 ^ i ∈ flagsIter cat ↔ cat.testBit i = true :=
+  flagsIter_named_bit cat i hi
+
+/-- non-vacuity: KANJI|HIRAGANA visits KANJI (bit 2) and HIRAGANA (bit 6) in declaration order; a class-ALL
+NOOOVBOW2 character (the joiner) visits the fifteen classes, NOOOVBOW2 and then `ALL` -/
+example : flagsIter 68 = [4, 64] ∧
+    flagsIter 3221225471 = [1, 2, 4, 8, 16, 32, 64, 128, 256, 512, 1024, 2048, 4096, 8192, 16384, 2147483648, 1073741823] := by
+  decide
 
 end C13
